@@ -2,6 +2,7 @@
 \* <= 5 characters over {d, e, b, u, g, w, a, r, n, 3, space, tab, é}; cases: all strings of <= 4 characters
 \* over 17 character classes, <= 5 over the level alphabet, <= 6 over the path alphabet, near-misses of 38
 \* well-formed texts, level words x prefixes x cases x suffixes, first/last nanosecond of every month 1970..9999.
+\* byte-length-preserving multi-byte substitutions (14 non-ASCII representatives incl. Latin-1 high-bit aliases) of 28 fixed-width texts.
 SPECIFICATION Spec
 CONSTANTS
     PathAlgo = "repaired"
